@@ -14,6 +14,7 @@ import (
 	"path/filepath"
 	"strings"
 	"sync"
+	"syscall"
 	"time"
 
 	"github.com/oxia-db/oxia/common/simmmap"
@@ -29,6 +30,7 @@ type diskTracker struct {
 	OnFreeze func()
 	root     string
 	closedAt map[string]time.Time // segment file -> (fake) time its read-write mapping was closed
+	inode    map[string]uint64
 }
 
 // idxWritebackWindow: an index file (written without fsync when its segment is closed)
@@ -38,7 +40,7 @@ const idxWritebackWindow = 30 * time.Second
 var errInjectedMsync = errors.New("oxsim: injected msync failure (EIO)")
 
 func newDiskTracker(root string) *diskTracker {
-	return &diskTracker{shadow: map[string][]byte{}, root: root, closedAt: map[string]time.Time{}}
+	return &diskTracker{shadow: map[string][]byte{}, root: root, closedAt: map[string]time.Time{}, inode: map[string]uint64{}}
 }
 
 var activeTrackers struct {
@@ -87,11 +89,25 @@ func trackerFor(path string) *diskTracker {
 	return nil
 }
 
+func fileIno(path string) uint64 {
+	if fi, err := os.Stat(path); err == nil {
+		if st, ok := fi.Sys().(*syscall.Stat_t); ok {
+			return st.Ino
+		}
+	}
+	return 0
+}
+
 func dispatchMap(path string, m []byte, writable bool) {
 	if d := trackerFor(path); d != nil && writable {
+		ino := fileIno(path)
 		d.mu.Lock()
-		if _, ok := d.shadow[path]; !ok {
+		// a file that was deleted and created again under the same name starts from its own
+		// (synced, zero-filled) content, not from the durable bytes of its predecessor
+		if _, ok := d.shadow[path]; !ok || d.inode[path] != ino {
 			d.shadow[path] = append([]byte(nil), m...)
+			d.inode[path] = ino
+			delete(d.closedAt, path)
 		}
 		d.mu.Unlock()
 	}
